@@ -208,7 +208,7 @@ pub struct KObj<S: KSub> {
     pub model: Vec<(u8, u8)>,
     pub t: u8,
     pub inj_used: u32,
-    pub ins_count: [u8; 64],
+    pub ins_count: [u8; 256],
 }
 
 const K_INS: u32 = 1;
@@ -581,7 +581,7 @@ impl<S: KSub> System for KSys<S> {
     fn fresh(&self, cx: &mut Cx) -> Option<KObj<S>> {
         rt::cb_reset(None);
         match guard(|| S::new(self.hint)) {
-            Ok(sub) => Some(KObj { sub: Some(sub), model: vec![], t: 0, inj_used: 0, ins_count: [0; 64] }),
+            Ok(sub) => Some(KObj { sub: Some(sub), model: vec![], t: 0, inj_used: 0, ins_count: [0; 256] }),
             Err(_) => {
                 cx.violate(self.prop, "panic", format!("constructor panicked: {}", rt::last_panic()));
                 None
